@@ -377,21 +377,29 @@ fn macro_move_phase(thorough: bool, c16: bool) -> Phase {
         p.dedup();
         (e, p)
     };
-    let cfgs: Vec<(Vec<f64>, Vec<usize>)> = if thorough { vec![mk(5), mk(13), mk(20), mk(36), mk(70), mk(130)] } else { vec![mk(5), mk(13), mk(36), mk(70)] };
-    let units: Vec<(HUnit<Probe>, Vec<usize>)> = cfgs.into_iter().map(|(e, p)| (make_unit(e.clone(), probe_pw(&e), 1, false, "Probe"), p)).collect();
+    // one move deeper on a reduced target set {0,1,n/2,n-4,n-3,n-2,n-1,n}
+    let mk8 = |n: usize| -> (Vec<f64>, Vec<usize>, usize) { (iota(n), vec![0, 1, n / 2, n - 4, n - 3, n - 2, n - 1, n], if thorough { 6 } else { 5 }) };
+    let base_depth = if thorough { 5 } else { 4 };
+    let mut cfgs: Vec<(Vec<f64>, Vec<usize>, usize)> = (if thorough { vec![mk(5), mk(13), mk(20), mk(36), mk(70), mk(130)] } else { vec![mk(5), mk(13), mk(36), mk(70)] }).into_iter().map(|(e, p)| (e, p, base_depth)).collect();
+    cfgs.push(mk8(13));
+    cfgs.push(mk8(20));
+    if thorough {
+        cfgs.push(mk8(36));
+    }
+    let units: Vec<(HUnit<Probe>, Vec<usize>, usize)> = cfgs.into_iter().map(|(e, p, d)| (make_unit(e.clone(), probe_pw(&e), 1, false, "Probe"), p, d)).collect();
     let n = units.len();
     let units = Arc::new(units);
-    let depth = if thorough { 5 } else { 4 };
+    let depth = base_depth;
     Phase {
         name: "macro-move-histories",
         units: n,
         split: 2,
         body: Box::new(move |unit, cx| {
-            let (u, pos) = &units[unit];
+            let (u, pos, udepth) = &units[unit];
             let nseg = u.ends.len();
             // cell c in 0..=nseg: c = 0 below the first end, c = nseg at/after the last end; query = a point of the cell
             let point = |c: usize| -> f64 { if c == 0 { u.ends[0] - 0.5 } else { u.ends[c - 1] + 0.5 } };
-            let d = 1 + cx.choose(depth);
+            let d = 1 + cx.choose(*udepth);
             let mut hist: Vec<f64> = Vec::new();
             let mut cur: usize = 0;
             let mut started = false;
@@ -449,7 +457,7 @@ fn macro_move_phase(thorough: bool, c16: bool) -> Phase {
         classes: vec![],
         bounds: json!({"functions": if thorough {"1..n for n = 5, 13, 20, 36, 70, 130"} else {"1..n for n = 5, 13, 36, 70"},
             "moves": "jump to a cell / sweep cell by cell to a cell (one query per segment) / query exactly the breakpoint that starts a cell (C16: / a NaN query); targets: every cell for n <= 14, else {0,1,2,n/2-1,n/2,n/2+1,n-3,n-2,n-1,n}",
-            "histories": format!("every sequence of <= {depth} moves (histories of up to ~{} queries)", depth * 130)}),
+            "histories": format!("every sequence of <= {depth} moves (histories of up to ~{} queries); on 13 and 20 (36 thorough) pieces also every sequence of <= {} moves over the targets {{0,1,n/2,n-4,n-3,n-2,n-1,n}}", depth * 130, depth + 1)}),
     }
 }
 
